@@ -3,7 +3,10 @@ import PeroVerif.Props.C02
 import PeroVerif.Props.C03
 import PeroVerif.Props.C04
 import PeroVerif.Props.C05
+import PeroVerif.Props.C09
 import PeroVerif.Props.C13
+import PeroVerif.Props.C19
+import PeroVerif.Props.C16
 import PeroVerif.Props.C14
 import PeroVerif.Props.C15
 import PeroVerif.Spec.CtcMass
